@@ -456,15 +456,20 @@ class Check(PropertyCheck):
                   "reader reads the bytes written by Http1Client.send back as exactly method, target, version, fields, body and leaves "
                   "exactly what follows: Content-Length, no body, and the one-chunk + last-chunk re-framing incl. the inverse of %x) and "
                   "forward_stream_roundtrip_nofold (pipelined messages by induction: same number, order, method, target, fields, body, "
-                  "nothing left over). "
+                  "nothing left over); relay_response_roundtrip (the response analogue in the context of the request method: for "
+                  "every response validate_headers accepts, HTTP/d.d, status 100..999, fold-free values, and every body consistent "
+                  "with expected_http_body_size — HEAD/1xx/204/304 shortcuts, Content-Length, chunked re-framing, read-until-close — "
+                  "the reference reader reads what Http1Server.send writes back as exactly version, status, reason, fields, body). "
                   "The real HttpLayer (regular/reverse/transparent, validate_inbound_headers on) is checked directly: bytes written "
                   "upstream/downstream are parsed by an independent Python RFC 9112 parser and compared with the flows recorded at the "
                   "hooks (count, order, method, target, fields, body; ambiguous messages not forwarded); the model is tied function by "
                   "function to the real code, and the Lean Ref to the Python reference parser.")
-    level_note = ("PARTIAL in Lean: the request round trip is proved for field values without obs-fold (NoFold); with obs-fold the "
-                  "statement (fields read back as Ref.unfold of the recorded ones) is only checked on an instance by rfl and by the "
-                  "oracle; the response-side round trip (relayResponse vs Ref.parseResponse) is not proved — its framing decision is "
-                  "(framing_agrees), its bytes are covered by the reference-parser oracle on the real layer and the fwdresp/refresp "
+    level_note = ("PARTIAL in Lean: the request and response round trips are proved for field values without obs-fold; with "
+                  "obs-fold the statement (fields read back as Ref.unfold of the recorded ones) is only checked on an instance by rfl "
+                  "and by the oracle — the one missing lemma is stated as ObsFoldNormalisation in Props/C01.lean. A 2xx answer to "
+                  "CONNECT (produced by the proxy itself, opens a tunnel) is excluded from relay_response_roundtrip; status codes are "
+                  "rendered with three digits (100..999, what the HTTP/1 reader produces). The real layer's bytes are covered by the "
+                  "reference-parser oracle and the fwdreq/fwdresp/refreqs/refresp "
                   "ties. Parameters/assumptions: url.parse_authority/url.parse "
                   "(authOk; only simple host[:port] authorities are compared), h11 readers as transcribed, Python regex `$` semantics "
                   "(trailing newline) modelled in parseCL/nameOk, connection_close's str.strip modelled on the ASCII range only. "
